@@ -47,7 +47,9 @@ CHECKS = {
         "no loop beyond a fuel that is linear in the source (|src|+2 tokens, 4|tokens|+8 nested parser calls, 4|regex|+8 regex-parser calls); C08_lex_total; C08_tokens_end_with_eof (the invariant "
         "the parser relies on); C08_regex_total; C08_no_partial_tree; C08_refuted_code_size_not_bounded_by_source_length (the model's code size is not bounded by the source length: the known finding K25 as a theorem). Tie: token stream (ast.VerifLex hook) and syntax tree / error class of the implementation compared with the extracted model on "
         "corpus + generated programs x every prefix and one-token deletion/duplication/swap, token soups, random bytes, arbitrary regex bodies (non-ASCII included), process expressions cut short by every statement keyword, nesting to depth 3000; the implementation must return "
-        "program xor printable error without panic, hang or 2 GB.",
+        "program xor printable error without panic, hang or 2 GB; every source also through libvore.Compile and, stored in a file, libvore.CompileFile. Tie by translation: /verif/lextab regenerates "
+        "coq/Generated/LexGen.v from libvore/ast/lexer.go on every run (token types, lexer states, the final switch of getNextToken with fallthrough chains resolved, keyword and operator tables) and "
+        "coq/Separate/LexTables.v proves the model's tables equal to them and every state to have a case (LexTables_final_switch, LexTables_keywords, LexTables_operators, LexTables_states, LexTables_token_types, LexTables_table_states).",
    note="The model reads runes; unicode classes are concrete for ASCII/Latin-1, so sources with other runes outside strings/comments/regex bodies, invalid UTF-8 and numbers above 6 digits are checked "
         "on the implementation only. 'Bounded memory': known finding K25 (loop counts are unrolled: compile cost grows with the product of nested minimum counts, `find all exactly 99999999 'a'` "
         "exhausts memory); the generator model is a total function but its output size is not bounded by the source length. Repaired by earlier fix commits: unterminated regex literal hang, "
@@ -148,7 +150,8 @@ CHECKS = {
         "where they do not glue, give the same parse_source result (accept/reject and tree); C15_keyword_spelling_irrelevant - the parser reads a lexeme only after checking the token is an identifier, "
         "number, string or regex literal (parse ts = parse ts' whenever types agree and those lexemes agree); C15_layout_and_case_invariance - both together through lexer, parser and generator (same "
         "bytecode). Tie: corpus + generated programs x every gap x 9 separators (inserted and replacing) x compaction x keyword case variants on the implementation: accept/reject, printed tree and Run "
-        "results equal the original's; every variant's tokens and tree compared with the model.",
+        "results equal the original's; every variant's tokens and tree compared with the model. The keyword table (which spellings are keywords of which kind) is tied by translation: "
+        "coq/Generated/LexGen.v is regenerated from libvore/ast/lexer.go on every run and coq/Separate/LexTables.v proves the model's keyword, operator and final-switch tables equal to the source's.",
    note="The theorem quantifies over element sequences; that every accepted source IS such a sequence (its own tokens and separators) is not proved (the converse direction), it is exercised by the "
         "correspondence. `---` is a comment by maximal munch (like `ab` is one word): a comment directly after a `-` token needs a blank; the check inserts one there. Repaired by earlier fix commits: "
         "comments inside transform expressions, blank before a comma in an `in` list, `( )` (parse() now drops WS/COMMENT tokens once).",
